@@ -657,9 +657,23 @@ func c16Flow(c *Ctx) {
 			mode, ok := constInt(m.arg(1))
 			c.check(ok && mode == 0o755, "C16.3", fnName(fn)+":MkdirAll.mode", L.pos(m.instr.Pos()), "missing parent directories are created with mode 0755", fmt.Sprintf("%#o", mode))
 		}
-		for _, m := range findCalls(fn, "os.Chmod") {
+		chmods := append(findCalls(fn, "os.Chmod"), findCalls(fn, "(*os.File).Chmod")...)
+		for _, m := range chmods {
 			mode, ok := constInt(m.arg(1))
 			c.check(ok && mode == 0o644, "C16.3", fnName(fn)+":Chmod.mode", L.pos(m.instr.Pos()), "installed files get mode 0644", fmt.Sprintf("%#o", mode))
+		}
+		// the mode is set explicitly before publishing: a creation mode alone is subject to the process umask
+		for _, rn := range findCalls(fn, "os.Rename") {
+			okSet := false
+			for _, m := range chmods {
+				if m.value() != nil {
+					if ok, _ := checkedBefore(m.value(), rn.instr); ok {
+						okSet = true
+					}
+				}
+			}
+			c.check(okSet, "C16.3", fnName(fn)+":mode-set-explicitly-before-publish", L.pos(rn.instr.Pos()),
+				"the published file's mode does not depend on the umask: a checked chmod to 0644 precedes the rename on every path", fmt.Sprintf("%d chmod call(s) in the publishing function", len(chmods)))
 		}
 	}
 
